@@ -35,6 +35,9 @@ type NetSpec struct {
 	// its output list, as indexes into the outputs in node order. Empty = node order.
 	OutOrder []int `json:"out_order,omitempty"`
 	Renamed  bool  `json:"renamed,omitempty"`
+	// Dormant (networks expressed from a genome only): the genome also carries a disabled module and a disabled connection
+	// gene; neither is expressed, the network is the plain one
+	Dormant bool `json:"dormant_module_and_gene,omitempty"`
 }
 
 // outputIds: ids of the output neurons in the order of the network's output list (the order of ReadOutputs).
@@ -84,6 +87,32 @@ func (s NetSpec) Genome() GenomeSpec {
 	}
 	for i, l := range s.Links {
 		g.Genes = append(g.Genes, GeneSpec{In: l.From, Out: l.To, W: l.W, Rec: l.Rec, Innov: int64(i + 1), Mut: l.W, En: true, Trait: 1})
+	}
+	if s.Dormant {
+		maxId, first, out := 0, s.Nodes[0].Id, 0
+		for _, n := range s.Nodes {
+			maxId = imax(maxId, n.Id)
+			if n.Role == roleOutput {
+				out = n.Id
+			}
+		}
+		for _, n := range s.Nodes {
+			if isSensorRole(n.Role) {
+				first = n.Id
+				break
+			}
+		}
+		// a disabled gene on a pair/flag that no other gene uses: sensor -> output flagged recurrent, or skipped if taken
+		taken := false
+		for _, l := range s.Links {
+			taken = taken || (l.From == first && l.To == out && l.Rec)
+		}
+		k := int64(len(s.Links))
+		if !taken {
+			k++
+			g.Genes = append(g.Genes, GeneSpec{In: first, Out: out, W: 3, Rec: true, Innov: k, Mut: 3, En: false, Trait: 1})
+		}
+		g.Modules = append(g.Modules, ModuleSpec{Id: maxId + 1, Act: 21, Innov: k + 1, Mut: 1, En: false, Ins: []int{first}, Outs: []int{out}})
 	}
 	return g
 }
@@ -206,6 +235,9 @@ func renameNet(t *rapid.T, s NetSpec) NetSpec {
 
 func drawNet(t *rapid.T, cfg NetCfg) NetSpec {
 	s := drawNetPlain(t, cfg)
+	if s.ViaGenome && rapid.IntRange(0, 5).Draw(t, "dormant module") == 0 {
+		s.Dormant = true
+	}
 	if cfg.Rename && rapid.IntRange(0, 4).Draw(t, "rename nodes") == 0 {
 		s = renameNet(t, s)
 	}
